@@ -355,6 +355,13 @@ func c08Names(e *Env) {
 			}
 		}
 	}
+	// names that are equal under common 32-bit string hashes (searched once per run, see c20.go)
+	cp := collisionPairs(3)
+	for _, hname := range sortedKeys(cp) {
+		for _, pr := range cp[hname] {
+			names = append(names, pr[0], pr[1])
+		}
+	}
 	ctx := map[string]any{}
 	for i, n := range names {
 		ctx[n] = i + 1
